@@ -324,7 +324,8 @@ def concrete_case(pattern, folders, opts, witness, names=None):
         k += n
     layout = dict(folders=list(folders), ncoders=[1] * len(folders), packsizes=packs, crc_at=opts.get("crc_at", "sub"),
                   omit_numunpack=opts.get("omit_numunpack", True), dummy=opts.get("dummy"),
-                  emptyfile_vector=opts.get("emptyfile_vector", False), coder_ids=[b"\x00"])
+                  emptyfile_vector=opts.get("emptyfile_vector", False), coder_ids=[b"\x00"],
+                  omit_substreams=opts.get("omit_substreams", False))
     packed = b"".join(datas)
     gap = b""
     if opts.get("packpos"):
